@@ -434,10 +434,10 @@ class OutgoingBallsHandler(BallDeviceStateHandler):
 
                 if new_balls < old_balls:
                     self.info_log("Found %s physical balls and %s expected balls", new_balls, old_balls)
-                    # Post that the ball is lost
-                    await self.ball_device.lost_idle_ball()
-                    # Cancel the eject queue for the lost ball
                     for _ in range(0, old_balls - new_balls):
+                        # Post that the ball is lost
+                        await self.ball_device.lost_idle_ball()
+                        # Cancel the eject queue for the lost ball
                         if not self._eject_queue.empty():
                             self._eject_queue.get_nowait()
                             self._eject_queue.task_done()
